@@ -727,22 +727,29 @@ def check_fsm_class(c, repo):
     c.check(got == {(A1, False), (A2, False), (A3, True)} and raised_class(rs[0].ast, f) == 'ExceptionFSM', f, rs[0].ast if rs else None,
             'ExceptionFSM exactly when none of the three applies', witness='raised under %s' % sorted(got or []), kind='path', tag='undefined-raises')
     # builders store (action, next_state) under the keys the lookup uses
+    A_NS = atom_key(ast.parse('next_state is None', mode='eval').body)[0]
     for name, key in (('add_transition', '(input_symbol, state)'), ('add_transition_any', 'state')):
         b = repo.func('FSM:FSM.' + name)
+        gb = b.cfg
         asg = [n for n in iter_nodes(b.node) if isinstance(n, ast.Assign) and isinstance(n.targets[0], ast.Subscript)]
-        ok = len(asg) == 1 and norm(asg[0].value) == '(action, next_state)' and norm(asg[0].targets[0].slice) in (key, key.strip('()'))
-        c.check(ok, b, asg[0] if asg else None, '%s stores (action, next_state) under %s' % (name, key), witness=norm(asg[0]) if asg else '', kind='ast', tag='builder:' + name)
+        v_ = asg[0].value if len(asg) == 1 else None
+        ok = isinstance(v_, ast.Tuple) and len(v_.elts) == 2 and is_name(v_.elts[0], 'action') and isinstance(v_.elts[1], ast.Name) \
+            and norm(asg[0].targets[0].slice) in (key, key.strip('()'))
+        c.check(ok, b, asg[0] if asg else None, '%s stores (action, <next state>) under %s' % (name, key), witness=norm(asg[0]) if asg else '', kind='ast', tag='builder:' + name)
+        if ok:
+            # which state is stored: the given one, or the transition's own state when none was given -- whatever local carries it
+            sn = gb.node_of_stmt(asg[0])
+            got = {}
+            for ns_none in (True, False):
+                got[ns_none] = sorted(set(cp.get(v_.elts[1].id, v_.elts[1].id) for cp in names_at(gb, sn, {A_NS: ns_none})))
+            c.check(got == {True: ['state'], False: ['next_state']}, b, asg[0], '%s: an omitted next_state means "stay in the same state", a given one is kept' % name,
+                    witness='stored for next_state None / given: %s / %s' % (got[True], got[False]), kind='path', tag='builder-default:' + name)
     b = repo.func('FSM:FSM.add_transition_list')
     ks = [k for k in calls_in(b.node) if callee_last(k) == 'add_transition']
     loops = [n for n in iter_nodes(b.node) if isinstance(n, ast.For)]
     ok = len(ks) == 1 and len(loops) == 1 and is_name(loops[0].iter, b.params[1]) and [norm(a) for a in ks[0].args] == [loops[0].target.id, 'state', 'action', 'next_state']
     c.check(ok, b, ks[0] if ks else None, 'add_transition_list adds the same transition for every symbol of the list', kind='ast', tag='builder:list')
-    for name in ('add_transition', 'add_transition_list', 'add_transition_any'):
-        b = repo.func('FSM:FSM.' + name)
-        gb = b.cfg
-        tn_ = [t for t in gb.nodes if t.kind == 'test' and norm(t.ast) == 'next_state is None']
-        an_ = [n for t in tn_ for n in guard_region(gb, t, 'true') if n.kind == 'stmt' and isinstance(n.ast, ast.Assign) and norm(n.ast) == 'next_state = state']
-        c.check(len(tn_) == 1 and len(an_) == 1, b, tn_[0].ast if tn_ else None, '%s: an omitted next_state means "stay in the same state", a given one is kept' % name, kind='path', tag='builder-default:' + name)
+    # add_transition_list hands its own next_state on (None included): add_transition applies the default
     sd = repo.func('FSM:FSM.set_default_transition')
     asg = [n for n in iter_nodes(sd.node) if isinstance(n, ast.Assign) and stmt_assigns_attr(n, 'default_transition') is not None]
     c.check(len(asg) == 1 and norm(asg[0].value) == '(action, next_state)', sd, asg[0] if asg else sd.node, 'set_default_transition stores (action, next_state)', kind='ast', tag='builder:default')
